@@ -23,6 +23,7 @@ import (
 	"strconv"
 	"strings"
 	"sync"
+	"sync/atomic"
 	"syscall"
 	"time"
 )
@@ -456,6 +457,7 @@ func main() {
 	}
 	sums := make([]*summary, nw)
 	errs := make([]error, nw)
+	var restarts atomic.Int64
 	var wg sync.WaitGroup
 	for w := 0; w < nw; w++ {
 		wg.Add(1)
@@ -464,6 +466,13 @@ func main() {
 			cfg := workerCfg{Property: prop, Mode: "explore", Tier: tier, VerifSeed: seed, Worker: w, NWorkers: nw, Runs: *runsFlag,
 				OutFile: filepath.Join(scratch, fmt.Sprintf("w%d.json", w)), ReplayDir: replayDir, Findings: openIDs, MaxProcs: procsCycle[w%3], MaxViol: 2, ShrinkS: 40}
 			sums[w], errs[w] = runWorker(bin, cfg, timeout)
+			if errs[w] != nil && !strings.Contains(errs[w].Error(), "watchdog") {
+				// A worker that died without a summary is re-run once: its runs are a pure
+				// function of (seed, worker index), so a second death is not an accident.
+				fmt.Printf("simdrv: %v - restarting that worker once\n", errs[w])
+				restarts.Add(1)
+				sums[w], errs[w] = runWorker(bin, cfg, timeout)
+			}
 		}(w)
 	}
 	wg.Wait()
@@ -675,6 +684,7 @@ func main() {
 			"determinism_seeds_compared":     detPairs,
 			"determinism_mismatches":         detMismatch,
 			"worker_processes":               nw,
+			"worker_restarts":                restarts.Load(),
 			"known_findings_observed":        agg.Known,
 			"components_real_code":           agg.RealCode,
 			"components_stubbed":             agg.Stubs,
